@@ -1128,6 +1128,25 @@ pub struct NontermDefn {
     pub(crate) rhs_expr_id: ExprId,
 }
 
+#[cfg(feature = "verif")]
+impl NontermDefn {
+    pub fn verif_lhs_name(&self) -> Ustr {
+        self.lhs_name
+    }
+
+    pub fn verif_lhs_span(&self) -> HumanSpan {
+        self.lhs_span
+    }
+
+    pub fn verif_shell(&self) -> Option<(Ustr, HumanSpan)> {
+        self.shell
+    }
+
+    pub fn verif_rhs(&self) -> ExprId {
+        self.rhs_expr_id
+    }
+}
+
 #[derive(Debug, Clone, PartialEq)]
 pub enum Statement {
     CallVariant {
